@@ -85,6 +85,12 @@ def last_field(projs):
     return fs[-1] if fs else None
 
 
+def is_whole_self(tr, op):
+    """the operand is (a reborrow of) self itself, not one of its fields"""
+    ps = [l for l in tr.operand(op) if l.kind == "param"]
+    return bool(ps) and all(l.detail == 1 and not [p for p in l.projs if p.startswith(".")] for l in ps)
+
+
 def is_map_get(t):
     cd = callee_def(t)
     return cd.endswith("::get") and any(x in cd for x in ("BTreeMap", "HashMap", "IndexMap", "AHashMap")) or \
@@ -270,14 +276,16 @@ def check_store(crate, rep, cfg):
             + ("" if ok else " — VIOLATED"))
     writers = [a for a in field_accesses(crate, STATE, "set_variables") if a["kind"] not in ("read",) and not (a["kind"] == "call" and not a["mut"])]
     roots = sorted({crate.root_of(a["body"]).path for a in writers})
-    ok = set(roots) <= {"vm::state::State::<'t>::store_global", "vm::state::State::<'t>::new"}
+    allowed = {"vm::state::State::<'t>::store_global", "vm::state::State::<'t>::new"}
+    ok = all(r in allowed or rrec.only_called_from(crate, r, allowed) for r in roots)
     rep.add("C03.STORE", "C03.STORE:set_variables:writers", ok, sg.where(0), "State.set_variables is written only by store_global (and created empty by State::new): %s" % roots
             + ("" if ok else " — VIOLATED"))
     rep.floor("C03.STORE", "writers of State.set_variables [%s]" % cfg, len(writers), 2)
     # per-iteration map: written by ForLoop::store, cleared by advance, created empty
     writers = [a for a in field_accesses(crate, "vm::for_loop::ForLoop", "context") if a["kind"] not in ("read",) and not (a["kind"] == "call" and not a["mut"])]
     roots = sorted({crate.root_of(a["body"]).path for a in writers})
-    ok = set(roots) <= {"vm::for_loop::ForLoop::store", "vm::for_loop::ForLoop::advance", "vm::for_loop::ForLoop::new"}
+    allowed = {"vm::for_loop::ForLoop::store", "vm::for_loop::ForLoop::advance", "vm::for_loop::ForLoop::new"}
+    ok = all(r in allowed or rrec.only_called_from(crate, r, allowed) for r in roots)
     rep.add("C03.STORE", "C03.STORE:frame-context:writers", ok, sg.where(0), "ForLoop.context is written only by store / advance (clear) / new: %s" % roots + ("" if ok else " — VIOLATED"))
     # VM: Set -> store_local, SetGlobal -> store_global, both with the popped value
     vm = crate.one("vm::interpreter::VirtualMachine::<'tera>::interpret")
@@ -294,13 +302,35 @@ def check_store(crate, rep, cfg):
             ok = all(any(p == "as:" + variant for p in l.projs) for l in nl) and bool(vl) and all(leaf_call_is(l, "vm::stack::Stack::pop") for l in vl)
         rep.add("C03.STORE", "C03.STORE:vm:%s" % variant, ok, vm.where(calls[0][0]) if calls else vm.where(0), "the %s arm calls %s with the opcode's name and the popped value"
                 % (variant, callee.strip(":")) + ("" if ok else " — VIOLATED"))
-    # compiler: `global` flag -> SetGlobal, else Set (both for `set` and for set-blocks)
-    cn = crate.one("parsing::compiler::Compiler::compile_node")
-    rep.analysed(cn)
-    ef = EdgeFacts(cn, crate)
+    # compiler: `global` flag -> SetGlobal, else Set (both for `set` and for set-blocks); the emission may sit in compile_node or in a
+    # private helper that receives the flag as a parameter fed from the node's `global` field at every call
     n = 0
-    for variant, want in (("SetGlobal", True), ("Set", False)):
-        for bb, idx, st in find_aggs(cn, "parsing::instructions::Instruction", variant):
+    for cn in crate.in_files("parsing/compiler.rs"):
+        if cn.kind == "const":
+            continue
+        emis = [(v, w, x) for v, w in (("SetGlobal", True), ("Set", False)) for x in find_aggs(cn, "parsing::instructions::Instruction", v)]
+        if not emis:
+            continue
+        rep.analysed(cn)
+        ef = EdgeFacts(cn, crate)
+        ctr = Tracer(cn)
+
+        def is_global_flag(place_str):
+            if place_str.endswith(".global"):
+                return True
+            # a bare parameter: every caller passes a `.global` field
+            if place_str.startswith("_") and place_str[1:].isdigit() and cn.is_param(int(place_str[1:])):
+                pidx = int(place_str[1:])
+                calls = [(b2, bb2, t2) for b2 in crate.bodies.values() if b2.kind != "const" for bb2, t2 in b2.calls() if callee_def(t2) == cn.path]
+                if not calls:
+                    return False
+                for b2, bb2, t2 in calls:
+                    ls = Tracer(b2).operand(t2["args"][pidx - 1])
+                    if not (ls and all(last_field(l.projs) == ".global" for l in ls)):
+                        return False
+                return True
+            return False
+        for variant, want, (bb, idx, st) in emis:
             n += 1
             truth = None
             for sb in sorted(cn.reachable):
@@ -309,12 +339,12 @@ def check_store(crate, rep, cfg):
                     continue
                 for tgt, fl in ef.facts_for_switch(sb).items():
                     for f in fl:
-                        if f[0] == "bool" and f[1].endswith(".global") and cn.dominates(tgt, bb) and tgt != sb and len(cn.pred[tgt]) == 1:
+                        if f[0] == "bool" and is_global_flag(f[1]) and cn.dominates(tgt, bb) and tgt != sb and len(cn.pred[tgt]) == 1:
                             truth = f[2]
             ok = truth is want
             rep.add("C03.STORE", "C03.STORE:compiler:%s#%d" % (variant, n), ok, cn.where(bb, idx), "Instruction::%s is emitted on the `global == %s` edge" % (variant, str(want).lower())
                     + ("" if ok else " — VIOLATED (edge: %s)" % truth))
-    rep.floor("C03.STORE", "Set/SetGlobal emissions in compile_node [%s]" % cfg, n, 4)
+    rep.floor("C03.STORE", "Set/SetGlobal emissions in the compiler [%s]" % cfg, n, 2)
 
 
 # --------------------------------------------------------------------------------------------------------------- ITER
@@ -328,12 +358,36 @@ def field_assigns(body, field):
     return out
 
 
+def clears_context(crate, h):
+    """every path of helper h(&mut self) to return calls clear() on self.context or has just seen it empty"""
+    tr = Tracer(h)
+    cl = {bb for bb, t in h.calls() if callee_def(t).endswith("::clear") and self_fields(tr, t["args"][0]) == {(".context",)}}
+    if not cl:
+        return False
+    ef = EdgeFacts(h, crate)
+    empt = set()
+    for sb in sorted(h.reachable):
+        if h.term(sb)["k"] != "switch":
+            continue
+        for tgt, fl in ef.facts_for_switch(sb).items():
+            for f in fl:
+                if f[0] == "call" and f[1].endswith("::is_empty") and f[3] is True and self_fields(tr, h.term(f[4])["args"][0]) == {(".context",)}:
+                    empt.add((sb, tgt))
+    reach = h.reach_from(0, removed_blocks=frozenset(cl), removed_edges=frozenset(empt))
+    return not any(h.term(x)["k"] == "return" for x in reach)
+
+
 def check_iter(crate, rep, cfg):
     adv = crate.one("vm::for_loop::ForLoop::advance")
     rep.analysed(adv)
     tr = Tracer(adv)
     steps = [bb for bb, t in adv.calls() if callee_def(t).endswith("for_loop::Loop::advance")]
     clears = {bb for bb, t in adv.calls() if callee_def(t).endswith("::clear") and self_fields(tr, t["args"][0]) == {(".context",)}}
+    # ... or a private helper on self that clears it (on every path, or after seeing it empty)
+    for bb, t in adv.calls():
+        h = crate.bodies.get(callee_def(t))
+        if h is not None and h is not adv and t["args"] and is_whole_self(tr, t["args"][0]) and clears_context(crate, h):
+            clears.add(bb)
     ef = EdgeFacts(adv, crate)
     empties = set()
     for sb in sorted(adv.reachable):
@@ -344,12 +398,11 @@ def check_iter(crate, rep, cfg):
                 if f[0] == "call" and f[1].endswith("::is_empty") and f[3] is True:
                     ct = adv.term(f[4])
                     if self_fields(tr, ct["args"][0]) == {(".context",)}:
-                        # taking the `is_empty() == true` edge discharges the obligation: model it by cutting the edge target when it has one predecessor
-                        if len(adv.pred[tgt]) == 1:
-                            empties.add(tgt)
+                        # taking the `is_empty() == true` edge discharges the obligation: cut that edge
+                        empties.add((sb, tgt))
     ok = len(steps) == 1
     if ok:
-        reach = adv.reach_from(steps[0], removed_blocks=frozenset(clears | empties))
+        reach = adv.reach_from(steps[0], removed_blocks=frozenset(clears), removed_edges=frozenset(empties))
         leaks = [x for x in reach if adv.term(x)["k"] == "return"]
         ok = not leaks and bool(clears)
     rep.add("C03.ITER", "C03.ITER:advance:clears-iteration-assignments", ok, adv.where(steps[0]) if steps else adv.where(0), "after the counters move to a further element every path "
@@ -364,7 +417,8 @@ def check_iter(crate, rep, cfg):
     rep.add("C03.ITER", "C03.ITER:advance:iterated-flag", ok, adv.where(0), "`iterated` becomes true exactly where an element is taken (for-else relies on it)" + ("" if ok else " — VIOLATED"))
     writers = sorted({crate.root_of(a["body"]).path for a in field_accesses(crate, "vm::for_loop::ForLoop", "iterated")
                       if a["kind"] not in ("read",) and not (a["kind"] == "call" and not a["mut"])})
-    ok = set(writers) <= {"vm::for_loop::ForLoop::advance", "vm::for_loop::ForLoop::new"}
+    allowed = {"vm::for_loop::ForLoop::advance", "vm::for_loop::ForLoop::new"}
+    ok = all(r in allowed or rrec.only_called_from(crate, r, allowed) for r in writers)
     rep.add("C03.ITER", "C03.ITER:iterated:writers", ok, adv.where(0), "ForLoop.iterated is written only by advance and new: %s" % writers + ("" if ok else " — VIOLATED"))
     # counter arithmetic
     la = crate.one("vm::for_loop::Loop::advance")
